@@ -67,6 +67,9 @@ func connIndex(a net.Addr) int {
 func (*OwnRec) Handle(cx *layer4.Connection, _ layer4.Handler) error {
 	o := Own[connIndex(cx.RemoteAddr())]
 	o.ran = true
+	// a real handler does other things before it reads what was buffered for it (the proxy
+	// dials first): a scheduling point between being matched and the first read
+	vsched.Point("h_own")
 	buf := make([]byte, 300)
 	for {
 		n, err := cx.Read(buf)
@@ -94,6 +97,17 @@ func streamFor(sc *Scn, i int) []byte {
 		return append([]byte(nil), s...) // (no trailer: several protocols reject trailing bytes)
 	}
 	p := []byte(fmt.Sprintf("stream-%d:", i))
+	if sc.Kind == "wrap" {
+		// (the declared source keeps the connection's own port: the harness tells connections
+		// apart by their remote port)
+		p = append([]byte(fmt.Sprintf("PROXY TCP4 198.51.100.1 203.0.113.2 %d 2222\r\n", 4000+i)), p...)
+		// long enough for the first route's matcher (which wants more than three chunks): the
+		// parent connection's buffer is then full when the handler wraps it, and the wrapped
+		// connection prefetches through pooled scratch chunks
+		for j := 0; len(p) < 9000; j++ {
+			p = append(p, byte('A'+(i*3+j)%23))
+		}
+	}
 	for j := 0; j < 40+7*i; j++ {
 		p = append(p, byte('a'+(i*5+j)%26))
 	}
@@ -121,6 +135,13 @@ func routesFor(sc *Scn) []map[string]any {
 			"upstreams":      []map[string]any{{"dial": []string{"10.0.0.10:80"}}, {"dial": []string{"10.0.0.11:80"}}},
 			"load_balancing": map[string]any{"selection": map[string]any{"policy": sc.Policy}},
 			"health_checks":  map[string]any{"passive": map[string]any{"fail_duration": "1s", "max_fails": 2}}}}}}
+	case "wrap":
+		// the shipped proxy_protocol handler strips a header and continues on a wrapped
+		// connection (Connection.Wrap), which a later route then matches on again: the
+		// wrapped connection's matching buffer comes from the shared pool
+		return []map[string]any{
+			{"match": []map[string]any{{"h_need": map[string]any{"k": 6200, "mode": "peek"}}}, "handle": []map[string]any{{"handler": "proxy_protocol"}}},
+			{"match": []map[string]any{{"h_need": map[string]any{"k": 3, "pat": "str", "mode": "full"}}}, "handle": []map[string]any{{"handler": "h_own"}}}}
 	case "subroute":
 		// every connection falls through the shared subroute handler (its only route wants a
 		// first byte 'S', the streams start with 's') and continues with the route after it
@@ -143,7 +164,11 @@ func execute(x *explore.Exec, sc *Scn, solo int) *result {
 	}
 	hm.Global = &hm.Trace{}
 	layer4.VerifResetPools()
-	res.out = vsched.Run(x, vsched.Options{Horizon: 60000}, func() {
+	var trace func(string)
+	if os.Getenv("VERIF_TRACE") != "" {
+		trace = func(l string) { fmt.Println("  |", l) }
+	}
+	res.out = vsched.Run(x, vsched.Options{Horizon: 60000, Trace: trace}, func() {
 		ctx, cancel := caddy.NewContext(caddy.Context{Context: context.Background()})
 		defer cancel()
 		nw := vnet.NewNet()
@@ -351,7 +376,7 @@ func scenarios(tier string, yield0 func(any) bool) {
 		}
 		return yield0(sc)
 	}
-	for _, k := range []string{"server", "subroute", "throttle", "tee", "listener"} {
+	for _, k := range []string{"server", "subroute", "wrap", "throttle", "tee", "listener"} {
 		for _, n := range []int{2, 3} {
 			if n == 3 && tier != "thorough" && k != "server" {
 				continue
@@ -530,7 +555,7 @@ func main() {
 	runner.Main(&runner.Harness{
 		ID:    "C08",
 		Level: "model_checking",
-		Rule:  "2-3 concurrent connections with distinguishable streams through SHARED provisioned routes: Server.handle with a prefetching matcher, a subroute every connection falls through, throttle with a total limiter, tee, the listener wrapper, the proxy with each of the 6 selection policies and shared peers, and every shipped matcher configuration (2 connections carrying that protocol's messages); deterministic LIFO buffer pool; every interleaving within the delay budget; " + mode,
+		Rule:  "2-3 concurrent connections with distinguishable streams through SHARED provisioned routes: Server.handle with a prefetching matcher, a subroute every connection falls through, PROXY-header stripping (Connection.Wrap) followed by further matching, throttle with a total limiter, tee, the listener wrapper, the proxy with each of the 6 selection policies and shared peers, and every shipped matcher configuration (2 connections carrying that protocol's messages); deterministic LIFO buffer pool; every interleaving within the delay budget; " + mode,
 		Assumptions: []string{
 			"sequential consistency for the cross-talk part; weak-memory effects are represented by the race detector's verdicts",
 			"race reports are attributed by the innermost non-runtime frame of both accesses; only pairs inside github.com/mholt/caddy-l4 count",
